@@ -779,10 +779,7 @@ async fn faults(r: &mut Rng) -> (String, String) {
     let ((mut tx, mut ra), (_tb, mut rb)) = conn::open_port(&mut p).await;
     // silent stalls also begin at a FRAME index of the workload (e.g. between the header frame of a data message and
     // its payload frame), not only at an instant between two bursts
-    // NOT part of the registered checks yet (opt-in with VERIF_C06_BYFRAME=1): on the unchanged tree the case
-    // `70 3 419544072983891365` leaves dispatcher A running after B ended with Timeout; whether that is a harness
-    // artefact or a genuine C06 defect is undecided (DESIGN.md section 0, "Open observation O-C06-frame")
-    let by_frame = std::env::var("VERIF_C06_BYFRAME").is_ok() && (kind == 3 || kind == 4) && r.chance(1, 2);
+    let by_frame = (kind == 3 || kind == 4) && r.chance(1, 2);
     let sig = if by_frame { format!("{sig}:fr") } else { sig };
     if by_frame {
         p.net.a2b.silence_after_frames(r.below(14) as usize);
@@ -809,6 +806,19 @@ async fn faults(r: &mut Rng) -> (String, String) {
     let mut a_listener = a_listener;
     let accept_task = tokio::spawn(async move { a_listener.accept().await.map(|_| ()) });
     tokio::time::sleep(Duration::from_micros(r.below(300))).await;
+    if by_frame {
+        // the stall begins when the chosen frame is written -- possibly a keep-alive ping much later than now; the
+        // deadline below counts from the instant a frame was actually lost (a case in which none is lost is vacuous)
+        let step = timeout.max(Duration::from_millis(1)) / 8;
+        let mut n = 0;
+        while !net.a2b.silence_began() && n < 200 {
+            tokio::time::sleep(step).await;
+            n += 1;
+        }
+        if !net.a2b.silence_began() {
+            return (format!("{sig}:none"), "ok".into());
+        }
+    }
     let t_fault = tokio::time::Instant::now();
     match kind {
         0 => net.a2b.fail(Fault::SinkErr),
@@ -825,6 +835,10 @@ async fn faults(r: &mut Rng) -> (String, String) {
     // everything must be over within the timeout (plus slack) of virtual time
     let limit = timeout.max(Duration::from_millis(1)) * 3 + Duration::from_millis(10);
     tokio::time::sleep(limit).await;
+    if let Ok(ms) = std::env::var("VERIF_C06_EXTRA_MS") {
+        // diagnosis only: wait longer before judging
+        tokio::time::sleep(Duration::from_millis(ms.parse().unwrap_or(0))).await;
+    }
     quiesce().await;
     let _ = (&a_client, &b_client, &b_listener, &mut rb, start, t_fault);
     if !mux_a.is_finished() {
